@@ -145,4 +145,82 @@ impl Index {
       },
     )))
   }
+
+  /// Every inscription entry in sequence-number order with its stored satpoint.
+  pub fn verif_inscription_entries(&self) -> Result<Vec<(InscriptionEntry, Option<SatPoint>)>> {
+    let rtx = self.database.begin_read()?;
+    let entries = rtx.open_table(SEQUENCE_NUMBER_TO_INSCRIPTION_ENTRY)?;
+    let satpoints = rtx.open_table(SEQUENCE_NUMBER_TO_SATPOINT)?;
+    let mut result = Vec::new();
+    for row in entries.iter()? {
+      let (sequence_number, entry) = row?;
+      let satpoint = satpoints
+        .get(sequence_number.value())?
+        .map(|satpoint| SatPoint::load(*satpoint.value()));
+      result.push((InscriptionEntry::load(entry.value()), satpoint));
+    }
+    Ok(result)
+  }
+
+  /// `HEIGHT_TO_LAST_SEQUENCE_NUMBER` as stored.
+  pub fn verif_height_to_last_sequence_number(&self) -> Result<Vec<(u32, u32)>> {
+    let rtx = self.database.begin_read()?;
+    let table = rtx.open_table(HEIGHT_TO_LAST_SEQUENCE_NUMBER)?;
+    let mut result = Vec::new();
+    for row in table.iter()? {
+      let (height, sequence_number) = row?;
+      result.push((height.value(), sequence_number.value()));
+    }
+    Ok(result)
+  }
+
+  /// `INSCRIPTION_NUMBER_TO_SEQUENCE_NUMBER` as stored.
+  pub fn verif_number_to_sequence_number(&self) -> Result<Vec<(i32, u32)>> {
+    let rtx = self.database.begin_read()?;
+    let table = rtx.open_table(INSCRIPTION_NUMBER_TO_SEQUENCE_NUMBER)?;
+    let mut result = Vec::new();
+    for row in table.iter()? {
+      let (number, sequence_number) = row?;
+      result.push((number.value(), sequence_number.value()));
+    }
+    Ok(result)
+  }
+
+  /// Every outpoint that has a UTXO entry.
+  pub fn verif_outpoints(&self) -> Result<Vec<OutPoint>> {
+    let rtx = self.database.begin_read()?;
+    let table = rtx.open_table(OUTPOINT_TO_UTXO_ENTRY)?;
+    let mut result = Vec::new();
+    for row in table.iter()? {
+      let (outpoint, _entry) = row?;
+      result.push(OutPoint::load(*outpoint.value()));
+    }
+    Ok(result)
+  }
+
+  /// `SCRIPT_PUBKEY_TO_OUTPOINT` as stored.
+  pub fn verif_script_pubkey_outpoints(&self) -> Result<Vec<(Vec<u8>, OutPoint)>> {
+    let rtx = self.database.begin_read()?;
+    let table = rtx.open_multimap_table(SCRIPT_PUBKEY_TO_OUTPOINT)?;
+    let mut result = Vec::new();
+    for row in table.iter()? {
+      let (script, outpoints) = row?;
+      for outpoint in outpoints {
+        result.push((script.value().to_vec(), OutPoint::load(outpoint?.value())));
+      }
+    }
+    Ok(result)
+  }
+
+  /// `STATISTIC_TO_COUNT` as stored.
+  pub fn verif_statistics(&self) -> Result<BTreeMap<u64, u64>> {
+    let rtx = self.database.begin_read()?;
+    let table = rtx.open_table(STATISTIC_TO_COUNT)?;
+    let mut result = BTreeMap::new();
+    for row in table.iter()? {
+      let (key, value) = row?;
+      result.insert(key.value(), value.value());
+    }
+    Ok(result)
+  }
 }
